@@ -413,8 +413,21 @@ def plan_c16(K, ctx):
                 c["reps"] = 3 if quick else 4
                 g.write(json.dumps(c, ensure_ascii=False) + "\n")
 
-    # one judge over the whole history (M6 needs every rendering in one place): no sharding
-    K.pipeline(ctx, "ascii", "c16", "MC_C16", cfg, "J_C16", nontrivial_value, workers=8, extra_cmds=reps, shards=1)
+    # the history clause (M6) needs every rendering in one place: one judge over the whole file; the per-observation
+    # clauses are judged on shards
+    ctx.judge_env = {"NV_C16_MODE": "all"}
+    cmds = os.path.join(ctx.rundir, "c16_ascii.cmds.ndjson")
+    obs = os.path.join(ctx.rundir, "c16_ascii.obs.ndjson")
+    open(cmds, "w").close()
+    K.run_mc(ctx, "MC_C16", cfg, "ascii", "c16_ascii_mc", cmds, workers=8)
+    lines = sorted(set(x for x in open(cmds, encoding="utf-8").read().split("\n") if x))
+    open(cmds, "w", encoding="utf-8").write("".join(l + "\n" for l in lines))
+    reps(cmds, "ascii")
+    K.account(ctx, cmds, nontrivial_value)
+    K.run_exec(ctx, cmds, obs)
+    K.parallel([lambda: K.run_judge(ctx, "J_C16", "ascii", obs, "c16_global_judge", shards=0, env_extra={"NV_C16_MODE": "global"}),
+                lambda: K.run_judge(ctx, "J_C16", "ascii", obs, "c16_local_judge", shards=6, env_extra={"NV_C16_MODE": "local"})], max_workers=2)
+    ctx.judged //= 2          # the same observations went through both judges
     return {
         "note": "Typst.tla: layout by arity on the dumped markup constants. TLC checks that every model rendering is whitespace-normalised and "
                 "that rendering is injective on the whole universe (cardinality of the image = cardinality of the universe): U1, atoms, late-"
